@@ -70,6 +70,20 @@ type faultBucket struct {
 	lists      int
 	loadGate   map[string]chan struct{} // name -> closed when the load may proceed
 	stored     []string
+	failList   bool
+	failDelete map[string]bool
+	deleted    []string
+}
+
+func (b *faultBucket) Delete(ctx context.Context, name string) error {
+	b.mu.Lock()
+	if b.failDelete[name] {
+		b.mu.Unlock()
+		return errInjected
+	}
+	b.deleted = append(b.deleted, name)
+	b.mu.Unlock()
+	return b.Interface.Delete(ctx, name)
 }
 
 var errInjected = errors.New("injected storage failure")
@@ -88,6 +102,12 @@ func (b *faultBucket) Store(ctx context.Context, name string, data []byte) error
 }
 
 func (b *faultBucket) List(ctx context.Context, prefix string) (simpleblob.BlobList, error) {
+	b.mu.Lock()
+	fl := b.failList
+	b.mu.Unlock()
+	if fl {
+		return nil, errInjected
+	}
 	l, err := b.Interface.List(ctx, prefix)
 	b.mu.Lock()
 	b.lists++
